@@ -23,10 +23,12 @@ def build_real(inp):
             if inp.get("lineage", True):
                 attrs[LID] = inp["lid"][i]
             g.add_node(i + 1, **attrs)
+    so = {int(k): v for k, v in (inp.get("succ_order") or {}).items()}
     for i in range(N):
-        for j in range(N):
-            if inp["adj"][i][j]:
-                g.add_edge(i + 1, j + 1)
+        kids = [j + 1 for j in range(N) if inp["adj"][i][j]]
+        first = [c for c in so.get(i + 1, []) if c in kids]
+        for c in first + [c for c in kids if c not in first]:  # adjacency (= iteration) order as in the model
+            g.add_edge(i + 1, c)
     tr = SolutionTracks(g, ndim=3, time_attr=T, tracklet_attr=TID, lineage_attr=LID)
     tr.features[CUS] = {"feature_type": "node", "value_type": "int", "num_values": 1, "required": False,
                         "default_value": None}
@@ -330,6 +332,17 @@ def replay(failure):
                         continue
                     return True, detail + f" removed {(x, y)} without conflict"
                 return False, detail
+        if ob in ("C05.lineage_update_reaches_all_descendants", "C04.track_update_covers_exactly_the_segment"):
+            a = inp["args"]
+            start = a["n"]
+            if ob.startswith("C05"):
+                below = {start} | nx.descendants(g0, start)
+                bad = [m for m in g0.nodes() if g1.nodes[m][LID] != (a["lid"] if m in below else g0.nodes[m][LID])]
+            else:
+                seg = next(c for c in tracklet_components(g0) if start in c)
+                onseg = {m for m in seg if m == start or m in nx.descendants(g0, start)}
+                bad = [m for m in g0.nodes() if g1.nodes[m][TID] != (a["tid"] if m in onseg else g0.nodes[m][TID])]
+            return bool(bad), detail + f" wrong ids on nodes {bad}"
         if ob == "C04.partition":
             return (not partition_ok(g1, TID, tracklet_components(g1))), detail
         if ob == "C05.partition":
